@@ -90,16 +90,26 @@ static struct line_s alpha4[] = {
 	{"no stamp here", K_NONE, 0, 0, 0, 0, 0},
 };
 #define NALPHA_E	10
-#define NCFG	5
+/* configuration 5: the text T24:00:00 (sod = 86400).  Whatever 24:00 means in comparisons, the sort key must be
+ * one consistent instant: the line sorts as the end of its day or as 00:00:00 of the next day, never later */
+static struct line_s alpha5[] = {
+	{"2012-02-29T24:00:00", K_DT, 2012, 2, 29, 86400, 0},
+	{"2012-02-29T23:59:59", K_DT, 2012, 2, 29, 86399, 0},
+	{"2012-03-01T00:00:01", K_DT, 2012, 3, 1, 1, 0},
+	{"x 2012-03-01T00:00:00", K_DT, 2012, 3, 1, 0, 0},
+	{"2012-03-05T00:00:00", K_DT, 2012, 3, 5, 0, 0},
+};
+#define NCFG	6
 static struct line_s *alpha = alpha0;
 static int cfg;		/* 0: main alphabet; 1: sub-seconds; 2: byte 0x01; 3: epoch stamps -i %s; 4: -i @%s */
-static const char *const cfg_ifmt[NCFG] = {NULL, "%FT%T.%N", NULL, "%s", "@%s"};
-static const char *const cfg_tag[NCFG] = {"", " [sub-second parts, -i %FT%T.%N]", " [lines containing byte 0x01]", " [epoch stamps, -i %s]", " [epoch stamps, -i @%s]"};
+static const char *const cfg_ifmt[NCFG] = {NULL, "%FT%T.%N", NULL, "%s", "@%s", NULL};
+static const char *const cfg_tag[NCFG] = {"", " [sub-second parts, -i %FT%T.%N]", " [lines containing byte 0x01]", " [epoch stamps, -i %s]", " [epoch stamps, -i @%s]",
+	" [lines with T24:00:00]"};
 
 static struct line_s*
 cfg_alpha(int c)
 {
-	return c == 0 ? alpha0 : c == 1 ? alpha1 : c == 2 ? alpha2 : c == 3 ? alpha3 : alpha4;
+	return c == 0 ? alpha0 : c == 1 ? alpha1 : c == 2 ? alpha2 : c == 3 ? alpha3 : c == 4 ? alpha4 : alpha5;
 }
 
 
@@ -113,6 +123,13 @@ line_ns(const struct line_s *l)
 static int
 line_cmp(const struct line_s *a, const struct line_s *b)
 {
+	if (a->sod == 86400 || b->sod == 86400) {
+		/* T24:00:00 may sort anywhere from just after 23:59:59 of its day to 00:00:00 of the next:
+		 * intervals in half seconds; unordered (0) when they overlap */
+		int64_t alo = 2 * a->inst - (a->sod == 86400), ahi = 2 * a->inst;
+		int64_t blo = 2 * b->inst - (b->sod == 86400), bhi = 2 * b->inst;
+		return ahi < blo ? -1 : alo > bhi ? 1 : 0;
+	}
 	if (a->inst != b->inst) {
 		return a->inst < b->inst ? -1 : 1;
 	}
@@ -322,8 +339,11 @@ main(int argc, char *argv[])
 			alpha4[i].inst = strtoll(alpha4[i].text + 1, NULL, 10);
 		}
 	}
-	for (int c = 0; c < 3; c++) {
+	for (int c = 0; c < NCFG; c++) {
 		struct line_s *al = cfg_alpha(c);
+		if (c == 3 || c == 4) {
+			continue;
+		}
 		for (int i = 0; i < (c == 0 ? NALPHA : NALPHA_X); i++) {
 			if (al[i].kind == K_TIME) {
 				al[i].inst = al[i].sod;
@@ -351,7 +371,7 @@ main(int argc, char *argv[])
 		p += n;
 		for (int i = 0; i < len; i++) {
 			alpha = cfg_alpha(cfg);
-			if (sscanf(p, "%d%n", seq + i, &n) != 1 || seq[i] < 0 || seq[i] >= (cfg == 0 ? NALPHA : cfg <= 2 ? NALPHA_X : NALPHA_E)) {
+			if (sscanf(p, "%d%n", seq + i, &n) != 1 || seq[i] < 0 || seq[i] >= (cfg == 0 ? NALPHA : cfg <= 2 || cfg == 5 ? NALPHA_X : NALPHA_E)) {
 				return ex_replay_result(1, "bad case string '%s'", ex.cas);
 			}
 			p += n;
@@ -380,7 +400,8 @@ main(int argc, char *argv[])
 			"(without the ISO-week dates): %ld sequences x {no option, -r} = %ld runs of the binary; plus all sequences of length 0..%d over "
 			"two 5-line alphabets: date-times with sub-second parts read with -i %%FT%%T.%%N, and lines containing the byte 0x01; plus a 10-line alphabet of "
 			"epoch stamps (pairs inside one 65536-s block across a UTC midnight, neighbouring blocks, same day, negative stamps, a line without one) "
-			"read with -i %%s (all sequences up to length 3 quick / 4 thorough) and with -i @%%s (2 / 3), oracle = numeric order of the stamps",
+			"read with -i %%s (all sequences up to length 3 quick / 4 thorough) and with -i @%%s (2 / 3), oracle = numeric order of the stamps; plus a 5-line "
+			"alphabet with the text T24:00:00 (3 / 5): it must sort as the end of its day or as 00:00:00 of the next day, never later",
 			maxlen - 1, NALPHA, maxlen, NALPHA_SHORT, tot, 2 * tot, ex.thorough ? 5 : 3);
 		ex_meta("binding", "every case is a run of the dsort binary of the same build (sort and cut from PATH, LC_ALL=C)");
 	}
@@ -425,8 +446,8 @@ main(int argc, char *argv[])
 		uint64_t slice = 1000000;
 		for (cfg = 1; cfg < NCFG; cfg++) {
 			/* lengths: sub-seconds and 0x01: 3 / 5; -i %s: 3 / 4; -i @%s: 2 / 3 */
-			const int xlen = cfg <= 2 ? (ex.thorough ? 5 : 3) : cfg == 3 ? (ex.thorough ? 4 : 3) : (ex.thorough ? 3 : 2);
-			const int NX = cfg <= 2 ? NALPHA_X : NALPHA_E;
+			const int xlen = cfg <= 2 || cfg == 5 ? (ex.thorough ? 5 : 3) : cfg == 3 ? (ex.thorough ? 4 : 3) : (ex.thorough ? 3 : 2);
+			const int NX = cfg <= 2 || cfg == 5 ? NALPHA_X : NALPHA_E;
 			alpha = cfg_alpha(cfg);
 			for (int len = 0; len <= xlen; len++) {
 				int seq[MAXLEN] = {0};
